@@ -54,6 +54,19 @@ CHECKS = {
         'marginal content and the text-descriptor VMDK class admit either '
         'answer.',
         'DESIGN.md section 4 C03'),
+    'C05': (
+        'invariant monitored after every chunk of generated schedules over '
+        'hostile-field images (Hypothesis + deterministic sweeps)',
+        'exploration',
+        'Streams of 0.6-4 MiB whose length/count/offset fields announce '
+        'oversized structures (every listed boundary value swept '
+        'deterministically, mixes sampled), valid images followed by filler, '
+        'text and random data x coarse/giant/boundary-aimed schedules; '
+        'sum(context_info) of all ten inspectors is read after every chunk '
+        'and after finish(), also inside InspectWrapper.',
+        'Observes context_info (the audit accessor named by the statement), '
+        'not the allocator; streams are bounded at ~4 MiB.',
+        'DESIGN.md section 4 C05'),
     'C07': (
         'round trip against layout-built ground truth + prefix enumeration '
         '(Hypothesis + exhaustive sweeps)',
